@@ -58,6 +58,8 @@ def strategy(tier):
         "headers": st.one_of(st.none(), st.lists(st.sampled_from(HEADER_POOL), min_size=1, max_size=10, unique=True)),
         "pick": st.integers(0, 50),
         "symlink": st.sampled_from([False, False, True]),
+        # name of the input directory (it is the default prefix): dots, dashes, a leading dot, a blank
+        "inname": st.sampled_from(["in", "widgets-2.1", "in", "my.project", ".proj", "v1.2.3", "In Put", "lib.cmake"]),
     })
 
 
@@ -165,7 +167,8 @@ def evaluate(case):
         return res
     lone = case["mode"].startswith("file")
     with S.Sandbox("c12") as sb:
-        inp = sb.path("in")
+        inname = case.get("inname") or "in"
+        inp = sb.path(inname)
         os.makedirs(inp)
         for rel, mc in files:
             p = os.path.join(inp, rel)
@@ -203,9 +206,9 @@ def evaluate(case):
             if case["mode"] in ("dir-abs", "dir-after-other"):
                 arg = inp
             elif case["mode"] == "dir-rel":
-                cwd, arg = sb.root, "in"
+                cwd, arg = sb.root, inname
             elif case["mode"] == "dir-dotslash":
-                cwd, arg = sb.root, "./in/"
+                cwd, arg = sb.root, "./" + inname + "/"
             else:
                 cwd, arg = inp, "."
             argv = [arg, "-o", out, "-s", cfg, "-r"]
@@ -227,7 +230,7 @@ def evaluate(case):
         if lone:
             prefix_applies, prefix = explicit is not None, explicit
         else:
-            prefix_applies, prefix = True, explicit if explicit is not None else "in"
+            prefix_applies, prefix = True, explicit if explicit is not None else inname
         titles, modnames = {}, {}
         todo = [(target_rel, target_mc)] if lone else files
         for rel, mc in todo:
@@ -244,6 +247,8 @@ def evaluate(case):
                     res.fail(f"{what}-not-distinct", f"{what} {val!r} used for {rels}")
     depth = max(rel.count("/") for rel, _ in files)
     mod_then_cmd = any(mc["module"].get("moddoc") and mc["module"]["items"] for _, mc in files)
+    if (case.get("inname") or "in") != "in":
+        res.labels.append("input-directory-name-with-dots-or-blanks")
     res.labels += ["mode:" + case["mode"], "sep:" + case["sep"], "prefix:" + (case["prefix"][0] if case["prefix"] else "none"),
                    f"depth:{min(depth, 3)}"]
     if any(mc["module"].get("moddoc") and mc["module"]["moddoc"].get("name") for _, mc in files):
